@@ -261,6 +261,7 @@ type modelQuery struct {
 	rounds int
 	err    string
 	timeout int
+	light  bool // draw candidate inputs from the hypothesis-reduced query (validated by the replay itself)
 }
 
 // get asks the solver for values of terms under the obligation's negation + pins.
@@ -275,7 +276,7 @@ func (q *modelQuery) get(terms []string) bool {
 		return true
 	}
 	q.rounds++
-	text := q.o.smtText(q.pins) + "(get-value (" + strings.Join(need, " ") + "))\n"
+	text := q.o.smtTextS(q.pins, q.light) + "(get-value (" + strings.Join(need, " ") + "))\n"
 	dir, _ := os.MkdirTemp("", "govc-model")
 	defer os.RemoveAll(dir)
 	// prefer z3 (models for quantified array VCs), then z3-new, then cvc5
@@ -448,6 +449,21 @@ func (rb *rebuilder) build(term string, t types.Type) (lit string, ok bool) {
 		}
 		return lit, true
 	case *types.Pointer:
+		if types.TypeString(t, nil) == "*bufio.Reader" {
+			if _, ok := c.cs.Ghosts["rin"]; ok {
+				c.declareConst("ghost0.rin", "String")
+				if !rb.q.get([]string{"ghost0.rin"}) {
+					return "", false
+				}
+				s, ok := smtStringDecode(rb.q.vals["ghost0.rin"].atom)
+				if !ok {
+					return "", false
+				}
+				rb.imports["strings"] = true
+				rb.imports["bufio"] = true
+				return "bufio.NewReader(strings.NewReader(" + goStringLit(s) + "))", true
+			}
+		}
 		if !rb.q.get([]string{term}) {
 			return "", false
 		}
@@ -516,6 +532,22 @@ func (rb *rebuilder) build(term string, t types.Type) (lit string, ok bool) {
 		}
 		return rb.typeStr(t) + "{" + strings.Join(elems, ", ") + "}", true
 	case *types.Interface:
+		// an io.Reader parameter is rebuilt from the model's value of the ghost input stream
+		if types.TypeString(t, nil) == "io.Reader" {
+			if _, ok := c.cs.Ghosts["rin"]; ok {
+				c.declareConst("ghost0.rin", "String")
+				if !rb.q.get([]string{"ghost0.rin"}) {
+					return "", false
+				}
+				s, ok := smtStringDecode(rb.q.vals["ghost0.rin"].atom)
+				if !ok {
+					return "", false
+				}
+				rb.imports["io"] = true
+				rb.notes = append(rb.notes, "io.Reader rebuilt from ghost stream rin")
+				return "io.Reader(strings.NewReader(" + goStringLit(s) + "))", true
+			}
+		}
 		if !rb.q.get([]string{"(if-tag " + term + ")"}) {
 			return "", false
 		}
@@ -676,6 +708,22 @@ func (rb *rebuilder) canon(term string, t types.Type, st *State) (string, bool) 
 			return fmt.Sprintf("s%x", s), true
 		}
 	case *types.Interface:
+		// an io.Reader parameter is rebuilt from the model's value of the ghost input stream
+		if types.TypeString(t, nil) == "io.Reader" {
+			if _, ok := c.cs.Ghosts["rin"]; ok {
+				c.declareConst("ghost0.rin", "String")
+				if !rb.q.get([]string{"ghost0.rin"}) {
+					return "", false
+				}
+				s, ok := smtStringDecode(rb.q.vals["ghost0.rin"].atom)
+				if !ok {
+					return "", false
+				}
+				rb.imports["io"] = true
+				rb.notes = append(rb.notes, "io.Reader rebuilt from ghost stream rin")
+				return "io.Reader(strings.NewReader(" + goStringLit(s) + "))", true
+			}
+		}
 		if !rb.q.get([]string{"(if-tag " + term + ")"}) {
 			return "", false
 		}
@@ -841,19 +889,27 @@ func replayFailure(cfg *runConfig, r *OblResult) (path string, confirmed bool, n
 		}
 	}
 	if r.R.Answer != "sat" {
-		rec.Note = "solver gave no model (" + r.R.Answer + "); obligation undecided"
+		// no model of the full query: draw a candidate input from the quantifier-free reduced query;
+		// the replay itself decides whether it is a failing input of the real code
+		ok, n := tryReplay(cfg, r.O, rec, true)
+		if ok {
+			rec.Confirmed = true
+			rec.Note = n + " (candidate input taken from the hypothesis-reduced query)"
+			return path, true, rec.Note
+		}
+		rec.Note = "solver gave no model (" + r.R.Answer + "); candidate from the reduced query: " + n
 		return path, false, rec.Note
 	}
-	ok, n := tryReplay(cfg, r.O, rec)
+	ok, n := tryReplay(cfg, r.O, rec, false)
 	rec.Confirmed = ok
 	rec.Note = n
 	return path, ok, n
 }
 
-func tryReplay(cfg *runConfig, o *Obligation, rec *replayRecord) (bool, string) {
+func tryReplay(cfg *runConfig, o *Obligation, rec *replayRecord, light bool) (bool, string) {
 	g := o.Gen
 	fn := g.fn
-	q := &modelQuery{o: o, vals: map[string]*sexp{}, timeout: cfg.timeout}
+	q := &modelQuery{o: o, vals: map[string]*sexp{}, timeout: cfg.timeout, light: light}
 	pkg := fn.Pkg.Pkg
 	rb := &rebuilder{q: q, g: g, st: g.entry, imports: map[string]bool{}}
 	rb.qual = func(p *types.Package) string {
@@ -874,7 +930,7 @@ func tryReplay(cfg *runConfig, o *Obligation, rec *replayRecord) (bool, string) 
 			for _, t := range sizeTerms {
 				hints = append(hints, fmt.Sprintf("(<= %s %d)", t, k))
 			}
-			q2 := &modelQuery{o: o, vals: map[string]*sexp{}, timeout: cfg.timeout, pins: hints}
+			q2 := &modelQuery{o: o, vals: map[string]*sexp{}, timeout: cfg.timeout, pins: hints, light: light}
 			if q2.get([]string{sizeTerms[0]}) {
 				*q = *q2
 				break
@@ -915,7 +971,7 @@ func tryReplay(cfg *runConfig, o *Obligation, rec *replayRecord) (bool, string) 
 	var sb strings.Builder
 	sb.WriteString("package " + pkg.Name() + "\n\nimport (\n\t\"fmt\"\n\t\"math\"\n\t\"reflect\"\n\t\"strings\"\n\t\"testing\"\n")
 	for ip := range rb.imports {
-		if ip == "math" {
+		if ip == "math" || ip == "strings" || ip == "fmt" || ip == "reflect" || ip == "testing" {
 			continue
 		}
 		sb.WriteString("\t" + strconv.Quote(ip) + "\n")
@@ -951,12 +1007,39 @@ func tryReplay(cfg *runConfig, o *Obligation, rec *replayRecord) (bool, string) 
 	if nres > 0 {
 		sb.WriteString("\t" + strings.Join(lhs, ", ") + " := " + call + "\n")
 		for i := 0; i < nres; i++ {
-			sb.WriteString(fmt.Sprintf("\tfmt.Printf(\"GOVC-RESULT %d %%s\\n\", govcCanon(r%d))\n", i, i))
+			if types.Identical(fn.Signature.Results().At(i).Type(), errorType) {
+				sb.WriteString(fmt.Sprintf("\tfmt.Printf(\"GOVC-RESULT %d %%s\\n\", govcErr(r%d))\n", i, i))
+			} else {
+				sb.WriteString(fmt.Sprintf("\tfmt.Printf(\"GOVC-RESULT %d %%s\\n\", govcCanon(r%d))\n", i, i))
+			}
 		}
 	} else {
 		sb.WriteString("\t" + call + "\n")
 	}
 	sb.WriteString("\tfmt.Println(\"GOVC-DONE\")\n}\n")
+	// sentinel errors known to the VC, so that the replay can tell them apart
+	sb.WriteString("\nfunc govcErr(e error) string {\n\tif e == nil {\n\t\treturn \"nil\"\n\t}\n")
+	for _, name := range sortedKeys(g.errConsts) {
+		parts := strings.SplitN(strings.TrimPrefix(name, "G."), ".", 2)
+		if len(parts) != 2 {
+			continue
+		}
+		expr := parts[1]
+		if parts[0] != pkg.Name() {
+			found := false
+			for _, imp := range pkg.Imports() {
+				if imp.Name() == parts[0] {
+					found = true
+				}
+			}
+			if !found {
+				continue
+			}
+			expr = parts[0] + "." + parts[1]
+		}
+		sb.WriteString("\tif e == " + expr + " {\n\t\treturn \"err:" + name + "\"\n\t}\n")
+	}
+	sb.WriteString("\treturn \"non-nil\"\n}\n")
 	rec.TestSource = sb.String()
 	rec.TestPackage = pkg.Path()
 	out, err := runOverlayTest(pkg.Path(), fn, sb.String())
@@ -981,11 +1064,15 @@ func tryReplay(cfg *runConfig, o *Obligation, rec *replayRecord) (bool, string) 
 		if panicked {
 			return true, "real code panics on the model's input"
 		}
+		// first choice: evaluate the failing clause on the real outputs
+		if ok, why := confirmBySolver(cfg, o, rb, out); ok {
+			return true, why
+		}
 		if len(expected) == 0 {
 			return false, "no comparable outputs"
 		}
-		if g.Ctx.uninterpreted() {
-			return false, "the VC contains uninterpreted symbols (recursive spec function, uninterpreted float operation or library function): equal outputs do not establish that the postcondition is false on the real code; obligation undecided on this input"
+		if goalUninterpreted(o) {
+			return false, "the failing clause mentions uninterpreted symbols (recursive spec function, uninterpreted float operation or library function): equal outputs do not establish that it is false on the real code; obligation undecided on this input"
 		}
 		for i, e := range expected {
 			if e == "?" {
@@ -1103,4 +1190,260 @@ func runScenario(o *Obligation, name string, rec *replayRecord) (bool, string) {
 		return false, "scenario " + name + " ran on the real code without exhibiting the failure; obligation still undischarged"
 	}
 	return false, "scenario " + name + " inconclusive: " + firstLines(out, 3)
+}
+
+// goalUninterpreted: does the failing clause itself mention symbols whose interpretation the
+// solver is free to choose? (Then equal outputs do not show the clause false on the real code.)
+func goalUninterpreted(o *Obligation) bool {
+	g := o.Goal
+	for _, p := range []string{"(ext.", "(m.", "(uf.", "(bit.", "(box.", "(unbox.", "(i2f", "uf.lit"} {
+		if strings.Contains(g, p) {
+			return true
+		}
+	}
+	for name, sf := range o.Gen.cs.Specs {
+		if (sf.Rec || sf.Body == nil || o.Gen.opaque[name]) && (strings.Contains(g, "(spec."+name+" ") || strings.Contains(g, " spec."+name+")")) {
+			return true
+		}
+	}
+	// non-recursive spec functions are macros, but their bodies may call uninterpreted ones
+	for name, sf := range o.Gen.cs.Specs {
+		if sf.Body != nil && !sf.Rec && strings.Contains(g, "(spec."+name+" ") {
+			if specBodyUninterpreted(o.Gen.cs, sf, 0) {
+				return true
+			}
+		}
+	}
+	return false
+}
+
+func specBodyUninterpreted(cs *ContractSet, sf *SpecFunc, depth int) bool {
+	if depth > 6 {
+		return true
+	}
+	src := sf.BodySrc
+	for _, b := range []string{"runeCount(", "runesub(", "bytestr(", "crc32of(", "math.", "infraError("} {
+		if strings.Contains(src, b) {
+			return true
+		}
+	}
+	for name, other := range cs.Specs {
+		if name != sf.Name && strings.Contains(src, name+"(") {
+			if other.Rec || other.Body == nil || specBodyUninterpreted(cs, other, depth+1) {
+				return true
+			}
+		}
+	}
+	return false
+}
+
+// ---- confirmation by evaluating the clause on the real outputs -------------------------
+
+// canonToConstraints turns the canonical rendering of a real result into SMT constraints on term.
+func (rb *rebuilder) canonToConstraints(term string, t types.Type, canon string, st *State, out *[]string) bool {
+	c := rb.g.Ctx
+	switch u := t.Underlying().(type) {
+	case *types.Basic:
+		switch {
+		case u.Info()&types.IsBoolean != 0:
+			*out = append(*out, "(= "+term+" "+canon+")")
+			return canon == "true" || canon == "false"
+		case u.Info()&types.IsInteger != 0:
+			bi, ok := new(big.Int).SetString(canon, 10)
+			if !ok {
+				return false
+			}
+			*out = append(*out, "(= "+term+" "+smtInt(bi)+")")
+			return true
+		case u.Info()&types.IsString != 0:
+			if !strings.HasPrefix(canon, "s") {
+				return false
+			}
+			var b []byte
+			if _, err := fmt.Sscanf(canon[1:], "%x", &b); err != nil && len(canon) > 1 {
+				return false
+			}
+			*out = append(*out, "(= "+term+" "+smtString(string(b))+")")
+			return true
+		case u.Info()&types.IsFloat != 0:
+			if c.fmode != "fp" {
+				return false
+			}
+			is32 := u.Kind() == types.Float32
+			if canon == "fNaN" {
+				*out = append(*out, "(fp.isNaN "+term+")")
+				return true
+			}
+			var bits uint64
+			if _, err := fmt.Sscanf(canon, "f%x", &bits); err != nil {
+				return false
+			}
+			if is32 {
+				*out = append(*out, fmt.Sprintf("(= %s ((_ to_fp 8 24) #x%08x))", term, bits))
+			} else {
+				*out = append(*out, fmt.Sprintf("(= %s ((_ to_fp 11 53) #x%016x))", term, bits))
+			}
+			return true
+		}
+	case *types.Interface:
+		switch {
+		case canon == "nil":
+			*out = append(*out, "(= (if-tag "+term+") 0)")
+		case strings.HasPrefix(canon, "err:"):
+			name := strings.TrimPrefix(canon, "err:")
+			if _, ok := c.errConsts[name]; !ok {
+				return false
+			}
+			*out = append(*out, "(= "+term+" "+name+")")
+		default:
+			*out = append(*out, "(not (= (if-tag "+term+") 0))", "(not (= (if-tag "+term+") 999))")
+		}
+		return true
+	case *types.Pointer:
+		if canon == "nil" {
+			*out = append(*out, "(= "+term+" 0)")
+		} else {
+			*out = append(*out, "(not (= "+term+" 0))")
+		}
+		return true
+	case *types.Slice:
+		if !strings.HasPrefix(canon, "[") || !strings.HasSuffix(canon, "]") {
+			return false
+		}
+		elems := splitCanon(canon[1 : len(canon)-1])
+		*out = append(*out, fmt.Sprintf("(= (s-len %s) %d)", term, len(elems)))
+		if len(elems) == 0 {
+			return true
+		}
+		k, hs := c.elemHeap(c.sortOf(u.Elem()))
+		h := c.heapGet(st, k, hs)
+		for j, e := range elems {
+			et := fmt.Sprintf("(select (select %s (s-ref %s)) (+ (s-off %s) %d))", h, term, term, j)
+			if !rb.canonToConstraints(et, u.Elem(), e, st, out) {
+				return false
+			}
+		}
+		// the returned array must not overlay pinned input arrays
+		*out = append(*out, "(> (s-ref "+term+") alloc!0)", "(= (s-off "+term+") 0)")
+		return true
+	case *types.Struct:
+		sn, su := c.structInfo(t)
+		if su == nil || !strings.HasPrefix(canon, "{") {
+			return false
+		}
+		parts := splitCanon(canon[1 : len(canon)-1])
+		idx := 0
+		for i := 0; i < su.NumFields(); i++ {
+			f := su.Field(i)
+			if skipField(f.Type()) {
+				continue
+			}
+			if idx >= len(parts) {
+				return false
+			}
+			if !rb.canonToConstraints("("+c.fieldAcc(sn, f.Name(), i)+" "+term+")", f.Type(), parts[idx], st, out) {
+				return false
+			}
+			idx++
+		}
+		return true
+	}
+	return false
+}
+
+// splitCanon splits a space-separated canonical list at nesting depth 0.
+func splitCanon(s string) []string {
+	var out []string
+	depth, start := 0, 0
+	for i := 0; i < len(s); i++ {
+		switch s[i] {
+		case '[', '{':
+			depth++
+		case ']', '}':
+			depth--
+		case ' ':
+			if depth == 0 {
+				if i > start {
+					out = append(out, s[start:i])
+				}
+				start = i + 1
+			}
+		}
+	}
+	if start < len(s) {
+		out = append(out, s[start:])
+	}
+	return out
+}
+
+// confirmBySolver: with the inputs pinned to the replayed values and the results pinned to what
+// the real code returned, is the failing clause unsatisfiable? Then it is false on the real
+// execution under every interpretation of the uninterpreted symbols.
+func confirmBySolver(cfg *runConfig, o *Obligation, rb *rebuilder, testOut string) (bool, string) {
+	g := o.Gen
+	fn := g.fn
+	if o.Clause == nil || o.Kind != "post" {
+		return false, ""
+	}
+	res := fn.Signature.Results()
+	var results []*SV
+	var cons []string
+	for i := 0; i < res.Len(); i++ {
+		t := res.At(i).Type()
+		n := g.freshConst("real.r", g.sortOf(t))
+		results = append(results, &SV{S: n, T: t})
+		var canon string
+		pref := fmt.Sprintf("GOVC-RESULT %d ", i)
+		for _, ln := range strings.Split(testOut, "\n") {
+			if strings.HasPrefix(ln, pref) {
+				canon = strings.TrimSpace(strings.TrimPrefix(ln, pref))
+			}
+		}
+		if canon == "" && !strings.Contains(testOut, pref) {
+			return false, "real result not printed"
+		}
+		if rf := g.rangeFact(n, t); rf != "" {
+			cons = append(cons, rf)
+		}
+		if !rb.canonToConstraints(n, t, canon, g.entry, &cons) {
+			return false, "real result " + fmt.Sprint(i) + " not expressible"
+		}
+	}
+	var clause string
+	func() {
+		defer func() {
+			if r := recover(); r != nil {
+				clause = ""
+			}
+		}()
+		env := g.envAt(g.entry, results)
+		clause = env.eval(o.Clause.E).S
+	}()
+	if clause == "" {
+		return false, "clause not evaluable on entry state"
+	}
+	var sb strings.Builder
+	sb.WriteString(g.preambleOpt(true))
+	for _, f := range g.facts {
+		// keep only the facts about the entry state: parameter ranges and requires come first
+		_ = f
+		break
+	}
+	for _, name := range sortedKeys(g.specDefined) {
+		if ax := g.specDefined[name].recAxiom; ax != "" && !g.opaque[name] {
+			sb.WriteString("(assert " + ax + ")\n")
+		}
+	}
+	for _, p := range rb.q.pins {
+		sb.WriteString("(assert " + p + ")\n")
+	}
+	for _, c := range cons {
+		sb.WriteString("(assert " + c + ")\n")
+	}
+	sb.WriteString("(assert " + clause + ")\n(check-sat)\n")
+	r := solve(sb.String(), 10, false, false, o.Name+".confirm")
+	if r.Answer == "unsat" {
+		return true, "the failing clause is unsatisfiable with the inputs and the real code's outputs pinned"
+	}
+	return false, "clause not refuted on the real outputs (" + r.Answer + ")"
 }
